@@ -81,7 +81,7 @@ def check(report, tier, seed):
                 for target, tw0 in TARGETS:
                     if tier == "quick" and rng.random() < 0.75:
                         continue
-                    tw = tw0 if tw0 is not None else rng.choice([1, 4, 8, 64, 128])
+                    tw = tw0 if tw0 is not None else rng.choice([0, 1, 4, 8, 64, 128])
                     mk = lambda w: rng.getrandbits(8) & ((1 << w) - 1 if w is not None else 255)
                     env = [("a", wl, mk(wl), False), ("b", wr, mk(wr), False)]
                     ast = ("b", op, ("w", "a"), ("w", "b"))
@@ -126,11 +126,53 @@ def check(report, tier, seed):
                 kinds = [e.split("|")[0] for e in exprcheck.canon_err(v[0][7:])]
                 if want[1] not in kinds:
                     report.violation("wrong-diagnostic:" + want[1], "rejected with %s, the rule broken is %s" % (kinds[:3], want[1]), rep)
+    # 3. width literals and slice bounds: "declared widths are at most 128", "lo <= hi <= operand width",
+    #    at and around every power of two a narrowing cast could wrap at
+    lits = sorted(set([0, 1, 2, 7, 8, 9, 64, 127, 128, 129, 130, 192, 255, 256, 257, 264, 320, 384, 511, 512, 640,
+                       65535, 65536, 65536 + 8, 2 ** 32 - 1, 2 ** 32, 2 ** 32 + 64, 2 ** 64, 2 ** 64 + 128, 2 ** 127, 2 ** 128 - 1]
+                      + [rng.choice([256, 512, 65536, 2 ** 32, 2 ** 64]) * rng.randint(1, 3) + rng.randint(0, 128) for _ in range(20 if tier == "quick" else 300)]))
+    wcases, wl_lines = {}, []
+
+    def spell(n):
+        return rng.choice([str(n), "0x%x" % n, "0x%X" % n])
+    base = ["register pP { pc : 64 = 0; }", "p_pc = P_pc + 10;", "pc = P_pc;", "Stat = STAT_AOK;"]
+    for n in lits:
+        ok = n <= 128
+        forms = [("wire-width", ["wire t : %s;" % spell(n), "t = 0;"], ok, "InvalidWireWidth"),
+                 ("register-width", ["register xY { r : %s = 0; }" % spell(n), "x_r = 0;"], ok, "InvalidWireWidth"),
+                 ("slice-hi", ["wire t : 128;", "t = 1;", "wire u : 1;", "u = (t)[0..%s] == 0;" % spell(n)], ok, "InvalidConstant"),
+                 ("slice-lo", ["wire t : 128;", "t = 1;", "wire u : 1;", "u = (t)[%s..128] == 0;" % spell(n)], ok, "InvalidConstant"),
+                 ("slice-narrow", ["wire t : 8;", "t = 1;", "wire u : 1;", "u = (t)[0..%s] == 0;" % spell(n)], n <= 8, "InvalidConstant" if n > 128 else "InvalidBitIndex" if False else None)]
+        for form, body, accept, kindw in forms:
+            cid = "w%d" % len(wcases)
+            text = "\n".join(base + body) + "\n"
+            wcases[cid] = {"hcl": text, "form": form, "literal": n, "accept": accept, "kind": kindw}
+            wl_lines.append("%s front %s 0" % (cid, lib.hexs(text)))
+    wimpl = lib.run_cases(lib.build_harness("dev", feats), wl_lines)
+    for cid, c in wcases.items():
+        a = wimpl.get(cid, ["MISSING"])
+        v = [l for l in a if l.startswith(("accept", "reject"))]
+        rep = {"case": c, "impl": a[:6]}
+        if not v or any(l.startswith("PANIC") for l in a):
+            report.violation("front-died", "front end gave no verdict / panicked", rep)
+            continue
+        verdicts["literal_" + ("accept" if c["accept"] else "reject")] += 1
+        if c["accept"] and not v[0].startswith("accept"):
+            report.violation("width-literal-wrongly-rejected:" + c["form"], "%s with literal %d was rejected: %s" % (c["form"], c["literal"], v[0][:120]), rep)
+        elif not c["accept"]:
+            if v[0].startswith("accept"):
+                report.violation("width-literal-wrongly-accepted:" + c["form"], "%s with literal %d (beyond the limit) was accepted" % (c["form"], c["literal"]), rep)
+            elif c["kind"]:
+                kinds = [e.split("|")[0] for e in exprcheck.canon_err(v[0][7:])]
+                if c["kind"] not in kinds:
+                    report.violation("width-literal-wrong-diagnostic:" + c["form"], "%s with literal %d: rejected with %s, expected %s" % (c["form"], c["literal"], kinds[:3], c["kind"]), rep)
+    pcases.update(wcases)
     report.coverage["evaluations"] = len(cases) + len(pcases)
     report.coverage["distinct_nontrivial"] = len(set(gen.to_sexpr(c["ast"]) + exprcheck.env_args(c["env"]) for c in cases)) + len(pcases)
     report.coverage["rule"] = ("expression level: operator x width-pair grid over %s, random well-typed nestings, and nestings with exactly one injected fault "
                                "(other width, unsized, undeclared wire, misordered slice, duplicated / missing default arm): verdict, width and diagnostic "
                                "kind against the model checker; program level: operators x width pairs assigned to a plain wire, a register input, "
-                               "stall/bubble, and built-in inputs of widths 1/3/4/64" % exprcheck.GRID_WIDTHS)
+                               "stall/bubble, and built-in inputs of widths 1/3/4/64, targets of width 0 included; width literals of wire and register declarations and slice bounds "
+                               "at and around 128, 256, 2^16, 2^32, 2^64 (+ random multiples plus a small offset) in decimal and hex spelling: accepted iff within the limit" % exprcheck.GRID_WIDTHS)
     report.coverage["distribution"] = dict(st, **{"program_" + k2: v2 for k2, v2 in verdicts.items()})
     report.coverage["samples"] = [pcases["q0"]["hcl"], gen.to_text(cases[-1]["ast"])]
